@@ -8,8 +8,10 @@ package checks
 
 import (
 	"bytes"
+	"context"
 	"crypto/sha256"
 	"encoding/hex"
+	"errors"
 	"fmt"
 	"io"
 	"os"
@@ -56,6 +58,8 @@ func c13Pool(r *core.Rand) []c13Input {
 	}
 	// content that re-enters the registry: HTML -> CSS/JS/SVG -> CSS, CSS -> data URI -> SVG
 	add("text/html", `<!doctype html><title>t</title><style>a{background:url("data:image/svg+xml,%3Csvg xmlns='http://www.w3.org/2000/svg' width='10px'%3E%3Cpath d='M 0 0 L 10 10'/%3E%3C/svg%3E")}</style><svg xmlns="http://www.w3.org/2000/svg" width="10px"><style>rect{fill:#ff0000}</style><rect style="stroke: blue" x="0"/></svg><p onclick="javascript:f( 1 )" style="margin: 0px">x</p><script>var a = [1, 2];</script>`)
+	add("text/html", `<!doctype html><title>frames</title><p>before <iframe src="a.html"> fallback  <b>text</b> </iframe> after</p><!--[if IE]> <p>old  browser</p> <![endif]--><iframe><p>second</p></iframe>`)
+	add("text/css", `a{background:url("data:text/css,b%7Bcolor:%23ff0000;margin:0px%200px%7D")}c{color:#ff0000}@import url("data:text/css;base64,ZHtjb2xvcjojZmYwMDAwfQ==");`)
 	add("image/svg+xml", `<?xml version="1.0"?><svg xmlns="http://www.w3.org/2000/svg" xmlns:xlink="http://www.w3.org/1999/xlink" width="100px" height="100px"><style>path{stroke:#000000}</style><path d="M 10,10 L 20,20 z" fill="#ff0000"/></svg>`)
 	add("text/xml", `<root a="x &quot;q&quot; y" b="it's"><![CDATA[ <keep> & ]]><item k="v">text  here</item><![CDATA[plain]]></root>`)
 	add("text/xml", `<r><a x="&quot;&quot;'">t</a><b y='"'>u</b><![CDATA[a<b]]></r>`)
@@ -83,8 +87,14 @@ func errStr(e error) string {
 }
 
 func c13Reference(m *minify.M, pool []c13Input) []c13Ref {
+	var p int64
+	return c13ReferenceP(m, pool, &p)
+}
+
+func c13ReferenceP(m *minify.M, pool []c13Input, progress *int64) []c13Ref {
 	refs := make([]c13Ref, len(pool))
 	for i, in := range pool {
+		atomic.StoreInt64(progress, int64(i))
 		out, err, pan := minifyBytes(m, in.mt, in.data)
 		if pan != "" {
 			refs[i] = c13Ref{nil, "panic " + pan}
@@ -95,6 +105,10 @@ func c13Reference(m *minify.M, pool []c13Input) []c13Ref {
 	return refs
 }
 
+type c13FailWriter struct{}
+
+func (c13FailWriter) Write(p []byte) (int, error) { return 0, errors.New("c13: destination failed") }
+
 // c13Op runs one operation through an entry point; returns output and error string.
 func c13Op(m *minify.M, op int, in c13Input, shared []byte) (out []byte, es string) {
 	defer func() {
@@ -102,7 +116,12 @@ func c13Op(m *minify.M, op int, in c13Input, shared []byte) (out []byte, es stri
 			es = fmt.Sprintf("panic %v", r)
 		}
 	}()
-	switch op % 7 {
+	switch op % 8 {
+	case 7:
+		// a destination that fails from its first write: the call must fail, and must leave nothing behind that a later
+		// or concurrent call could trip over (pooled per-call state, half-written buffers)
+		err := m.Minify(in.mt, c13FailWriter{}, bytes.NewReader(in.data))
+		return nil, "FAILW:" + errStr(err)
 	case 0:
 		var b bytes.Buffer
 		err := m.Minify(in.mt, &b, bytes.NewReader(in.data))
@@ -149,6 +168,56 @@ func c13Op(m *minify.M, op int, in c13Input, shared []byte) (out []byte, es stri
 	}
 }
 
+// c13Marked is the frame by which the deadlock monitor recognises workload goroutines.
+func c13Marked(f func()) { f() }
+
+// c13Await waits for done.  While the progress counter does not move it looks at the goroutines: a deadlock is
+// reported only on structural evidence - three polls without progress, then every workload goroutine parked in a
+// blocking primitive with an unchanged stack in two dumps AND no other goroutine of the process running or runnable
+// (nothing is left that could ever wake them).  Slow progress is never a deadlock.
+func c13Await(done <-chan struct{}, progress *int64) string {
+	last, still := int64(-1), 0
+	for {
+		select {
+		case <-done:
+			return ""
+		case <-time.After(2 * time.Second):
+		}
+		cur := atomic.LoadInt64(progress)
+		if cur != last {
+			last, still = cur, 0
+			continue
+		}
+		still++
+		if still < 3 {
+			continue
+		}
+		if ok, detail := blockedForever("checks.c13Marked"); ok && processQuiescent() {
+			return detail
+		}
+	}
+}
+
+// processQuiescent: no goroutine other than the caller is running or runnable.
+func processQuiescent() bool {
+	buf := make([]byte, 32<<20)
+	n := runtime.Stack(buf, true)
+	for i, mm := range goroutineHdr.FindAllStringSubmatch(string(buf[:n]), -1) {
+		if i == 0 {
+			continue // the caller
+		}
+		st := mm[2]
+		if k := strings.Index(st, ","); k >= 0 {
+			st = st[:k]
+		}
+		switch st {
+		case "running", "runnable", "syscall":
+			return false
+		}
+	}
+	return true
+}
+
 // c13Workload returns a list of problems (empty = held).
 func c13Workload(seed uint64, goroutines, opsPer int) (problems []string, ops int64, digest string) {
 	r := core.Stream(0xc13, "pool") // the pool is the same in every process (cross-process digest)
@@ -167,7 +236,20 @@ func c13Workload(seed uint64, goroutines, opsPer int) (problems []string, ops in
 	opts := c13Opts()
 	m := newM(opts) // cold registry for the concurrent phase
 	before := fmt.Sprintf("%#v", *opts)
-	refs := c13Reference(newM(c13Opts()), pool) // the sequential reference comes from a separate registry with equal options
+	var refs []c13Ref
+	{
+		// the sequential reference comes from a separate registry with equal options (monitored: a call that
+		// deadlocks with itself, e.g. on re-entry, must not hang the check)
+		var prog int64
+		done := make(chan struct{})
+		go c13Marked(func() {
+			refs = c13ReferenceP(newM(c13Opts()), pool, &prog)
+			close(done)
+		})
+		if d := c13Await(done, &prog); d != "" {
+			return []string{fmt.Sprintf("a sequential call never returns (input %d, %s): all goroutines are parked:\n%s", atomic.LoadInt64(&prog), pool[atomic.LoadInt64(&prog)%int64(len(pool))].mt, core.Trunc(d, 3000))}, 0, ""
+		}
+	}
 	shared := make([][]byte, len(pool))
 	for i := range pool {
 		shared[i] = append([]byte{}, pool[i].data...)
@@ -184,30 +266,41 @@ func c13Workload(seed uint64, goroutines, opsPer int) (problems []string, ops in
 	var n int64
 	for g := 0; g < goroutines; g++ {
 		wg.Add(1)
-		go func(g int) {
+		g := g
+		go c13Marked(func() {
 			defer wg.Done()
 			rr := core.Stream(seed, "g", fmt.Sprint(g))
 			for k := 0; k < opsPer; k++ {
 				// few inputs, many goroutines: bias towards a handful of inputs
 				i := rr.Intn(len(pool))
-				if rr.Chance(1, 2) && len(pool) > 165 {
-					i = len(pool) - 165 + rr.Intn(5) // the five hand-written re-entrant documents sit right before the 160 generated ones
+				if rr.Chance(1, 2) && len(pool) > 167 {
+					i = len(pool) - 167 + rr.Intn(7) // the seven hand-written re-entrant documents sit right before the 160 generated ones
 				}
-				op := rr.Intn(7)
+				op := rr.Intn(8)
 				out, es := c13Op(m, op, pool[i], shared[i])
 				atomic.AddInt64(&n, 1)
-				if es != refs[i].err && !(es != "" && refs[i].err != "" && op%7 != 0) {
-					addProblem(fmt.Sprintf("op %d on input %d (%s): error %q, sequential reference %q", op%7, i, pool[i].mt, es, refs[i].err))
+				if strings.HasPrefix(es, "FAILW:") {
+					continue // what a failing destination must produce is C14's subject; here it only perturbs the others
+				}
+				if es != refs[i].err && !(es != "" && refs[i].err != "" && op%8 != 0) {
+					addProblem(fmt.Sprintf("op %d on input %d (%s): error %q, sequential reference %q", op%8, i, pool[i].mt, es, refs[i].err))
 				} else if es == "" && !bytes.Equal(out, refs[i].out) {
-					addProblem(fmt.Sprintf("op %d on input %d (%s): bytes differ from the sequential reference: got %q want %q", op%7, i, pool[i].mt, core.Trunc(string(out), 120), core.Trunc(string(refs[i].out), 120)))
+					addProblem(fmt.Sprintf("op %d on input %d (%s): bytes differ from the sequential reference: got %q want %q", op%8, i, pool[i].mt, core.Trunc(string(out), 120), core.Trunc(string(refs[i].out), 120)))
 				}
 				if rr.Chance(1, 4) {
 					runtime.Gosched()
 				}
 			}
-		}(g)
+		})
 	}
-	wg.Wait()
+	{
+		done := make(chan struct{})
+		go func() { wg.Wait(); close(done) }()
+		if d := c13Await(done, &n); d != "" {
+			addProblem("concurrent calls block each other for ever (no goroutine of the process can run):\n" + core.Trunc(d, 3000))
+			return problems, n, ""
+		}
+	}
 	if after := fmt.Sprintf("%#v", *opts); after != before {
 		addProblem("a shared option struct was mutated: before " + before + " after " + after)
 	}
@@ -301,6 +394,60 @@ func c13Probe() string {
 	return ""
 }
 
+// c13StreamProbe: while a streaming call (M.Writer) of the real minifiers is open and waiting for more input, calls
+// for every media type must complete; the stream then finishes with the sequential bytes.
+func c13StreamProbe() string {
+	m := newM(c13Opts())
+	ref := newM(c13Opts())
+	for _, mt := range sixTypes {
+		in := []byte(smallInputs[mt][0])
+		want, werr := ref.Bytes(mt, append([]byte{}, in...))
+		var buf bytes.Buffer
+		w := m.Writer(mt, &buf)
+		if _, err := w.Write(in[:len(in)/2]); err != nil {
+			return "stream write failed: " + err.Error()
+		}
+		time.Sleep(20 * time.Millisecond) // let the minifier goroutine start and block on its reader
+		done := make(chan string, len(sixTypes))
+		for _, other := range sixTypes {
+			other := other
+			go c13ProbeMarker(func() {
+				oin := []byte(smallInputs[other][0])
+				got, err := m.Bytes(other, append([]byte{}, oin...))
+				exp, eerr := ref.Bytes(other, append([]byte{}, oin...))
+				if errStr(err) != errStr(eerr) || !bytes.Equal(got, exp) {
+					done <- fmt.Sprintf("call for %s while a %s stream is open gives different bytes", other, mt)
+					return
+				}
+				done <- ""
+			})
+		}
+		deadline := time.After(8 * time.Second)
+		for got := 0; got < len(sixTypes); {
+			select {
+			case s := <-done:
+				if s != "" {
+					return s
+				}
+				got++
+			case <-deadline:
+				if ok, detail := blockedForever("checks.c13ProbeMarker"); ok {
+					return "calls block while a " + mt + " stream (M.Writer) is open:\n" + detail
+				}
+				return "INCONCLUSIVE"
+			}
+		}
+		w.Write(in[len(in)/2:])
+		if err := w.Close(); errStr(err) != errStr(werr) {
+			return fmt.Sprintf("stream for %s: error %v, sequential reference %v", mt, err, werr)
+		}
+		if werr == nil && !bytes.Equal(buf.Bytes(), want) {
+			return fmt.Sprintf("stream for %s: bytes differ from the sequential reference", mt)
+		}
+	}
+	return ""
+}
+
 func C13(run *core.Run) {
 	// 1. in-process workload at several GOMAXPROCS / goroutine counts
 	reps := run.N(2, 12)
@@ -342,6 +489,18 @@ func C13(run *core.Run) {
 			run.Violation(core.Key("probe", []byte(s)), s, map[string]string{"problem": s})
 		}
 	}
+	for i := 0; i < 2; i++ {
+		run.Eval()
+		switch s := c13StreamProbe(); s {
+		case "":
+			run.NonTrivial([]byte(fmt.Sprintf("stream probe %d", i)))
+		case "INCONCLUSIVE":
+			run.Inconclusive()
+		default:
+			run.Violation(core.Key("probe", []byte(core.Trunc(s, 200))), s, map[string]string{"problem": s})
+			i = 2 // the stream that blocks the others stays open: no further in-process calls
+		}
+	}
 	// 3. race detector children (fresh processes: race reports vary from run to run) + cross-process digest
 	children := run.N(3, 20)
 	totalRaces := 0
@@ -362,7 +521,9 @@ func C13(run *core.Run) {
 	run.Set("race_reports", totalRaces)
 	// digest from fresh processes (different map-iteration seeds) must agree with the in-process one
 	for i := 0; i < run.N(3, 6); i++ {
-		out, err := exec.Command(os.Args[0], "c13digest").Output()
+		ctx, cancel := context.WithTimeout(context.Background(), 15*time.Minute)
+		out, err := exec.CommandContext(ctx, os.Args[0], "c13digest").Output()
+		cancel()
 		if err != nil {
 			run.Inconclusive()
 			continue
@@ -384,7 +545,9 @@ func C13(run *core.Run) {
 
 // c13Child runs the workload in a fresh process.
 func c13Child(seed uint64, procs, goroutines, ops int) (problems []string, n int64, digest string, crash string) {
-	cmd := exec.Command(os.Args[0], "c13work", fmt.Sprint(seed), fmt.Sprint(procs), fmt.Sprint(goroutines), fmt.Sprint(ops))
+	ctx, cancel := context.WithTimeout(context.Background(), 15*time.Minute) // generous watchdog; firing = inconclusive
+	defer cancel()
+	cmd := exec.CommandContext(ctx, os.Args[0], "c13work", fmt.Sprint(seed), fmt.Sprint(procs), fmt.Sprint(goroutines), fmt.Sprint(ops))
 	out, err := cmd.CombinedOutput()
 	text := string(out)
 	ok := false
